@@ -229,8 +229,8 @@ REL('sprh', 'PaletteHeader_CreatePaletteHeader', 'value', 'PaletteHeader', nbyte
 
 claim('C08', 'Bitmap geometry proved over the full 32-bit domain against an independent integer spec: CalcPixelByteWidth = ceil(w*bpp/8), CalculatePitch = smallest multiple of 4 >= row bytes, the pixel-size check accepts exactly pitch*|height| bytes and refuses negative widths and height INT32_MIN; ImageHeader::Validate / Create, BmpHeader::Create / signature checks, palette-size check and AbsoluteHeight proved by contract.',
       'NOT decided yet by this check: ReadIndexed / WriteIndexed / WritePixels / InvertScanLines / CreateIndexed (container-level reader and writer round trip). Trusted: CBMC, extraction rules.')
-claim('C09', 'Custom tileset header constants and validators proved against an independent description of the format (PBMP / head 0x14, tag count 2, width 32, depth 8, flags 8 / PPAL 1048, head 4, tag count 1 / data 1024 / data 32*h): TilesetHeader::Create/Validate, PpalHeader::Create/Validate, the three section validators, CalculatePixelHeaderLength, CalculatePbmpSectionSize, ValidateTileset (8 bit, width 32, height multiple of 32 in either orientation); Peek proved not to move the position (K_R).',
-      'NOT decided yet: ReadCustomTileset / WriteCustomTileset byte framing and the picture round trip. One trusted constant: PBMP section length 1068 + 32*h cannot be confirmed against the game offline.')
+claim('C09', 'Custom tileset header constants and validators proved against an independent description of the format (PBMP / head 0x14, tag count 2, width 32, depth 8, flags 8 / PPAL 1048, head 4, tag count 1 / data 1024 / data 32*h): TilesetHeader::Create/Validate, PpalHeader::Create/Validate, the three section validators, CalculatePixelHeaderLength, CalculatePbmpSectionSize, ValidateTileset (8 bit, width 32, height multiple of 32 in either orientation); Peek proved not to move the position (K_R); PeekIsCustomTileset proved to leave the stream where it stands at ANY position and to answer exactly "next four bytes are PBMP"; WriteCustomTileset proved against the format description (total length; PBMP length, pixel height and pixel-section length byte by byte; palette entry gi with red/blue exchanged; non-tilesets refused with nothing written); SwapPaletteRedAndBlue proved for every entry of a palette of any length.',
+      'ASSUMED: BitmapFile::InvertScanLines (negates height, same pixel count). NOT decided: ReadCustomTileset body, pixel content of the written file, the picture round trip, tilesets of more than 2^27 - 64 rows (4 GiB; the 32-bit length fields wrap and the writer does not refuse). One trusted constant: PBMP section length 1068 + 32*h cannot be confirmed against the game offline.')
 claim('C10', 'PRT cross-field rule check (ValidateImageMetadata: scan line = width rounded up to 4, palette index names an existing palette) proved with a loop contract for any number of images; canonical palette header (PPAL 1048 / head 4 / 1 / data 1024) and its validator proved; SectionHeader constructors/validator proved.',
       'NOT decided yet: ReadFrame / WriteFrame framing, CountFrames / VerifyCountsMatchHeader, palette channel swap on read/write, structure round trip.')
 claim('C11', 'Validators that guard the loaders are proved total and exact (every header validator throws iff a checked field deviates; image index check refuses index >= count; pixel-size check refuses negative width / INT32_MIN height); all with CBMC memory-safety and arithmetic checks on.',
@@ -239,7 +239,7 @@ claim('C18', 'Two-run relational checks (uninitialised storage is independent no
       'NOT decided yet: VOL/CLM record constructors, partially-assigning parsers (ReadFrame, ReadTilesetSources), writers byte-exact postconditions; input order / path spelling (std::sort, std::filesystem).')
 NOT_DECIDED.update({
  'C08': ['ReadIndexed/WriteIndexed/WritePixels/InvertScanLines/CreateIndexed: container-level code not yet under contract'],
- 'C09': ['ReadCustomTileset/WriteCustomTileset framing and picture round trip', 'PBMP length constant vs the game (trusted)'],
+ 'C09': ['ReadCustomTileset body, pixel content, picture round trip', 'tilesets above 2^27 - 64 rows', 'PBMP length constant vs the game (trusted)'],
  'C10': ['ReadFrame/WriteFrame, CountFrames, palette swap, round trip'],
  'C11': ['loader bodies and follow-up operations; resource exhaustion'],
  'C12': ['typed container/string helpers of Reader.h (Read(container&), Read<SizeType>, ReadNullTerminatedString)', 'FileReader against the std::ifstream model'],
@@ -305,11 +305,11 @@ REL('clm', 'WaveHeader_Create', 'value', 'WaveHeader', nbytes=46, props=('C18', 
 REL('clm', 'ClmHeader_MakeHeader', 'value', 'ClmHeader', nbytes=60, props=('C18', 'C03'))
 claim('C04', 'Bit reader proved against the reference bit sequence (MSB-first, 0 beyond the end) with its shift-register invariant for any buffer length; position-code arithmetic proved equal to the LZHUF d_code/d_len tables for all 256 values; GetRepeatOffset proved equal to the reference DecodePosition (lemma, any buffer/bit position) and < 4096; GetNextCode proved to terminate, stay inside the tree arrays and return a symbol < 314 (cvc5, quantified structural tree invariant); DecompressCode appends 1..60 bytes and never moves the read index; FillDecompressBuffer keeps the queue invariant (unread data never overwritten: the per-code precondition unread <= 4035 holds at every call) and terminates; CopyAvailableData / GetInternalBuffer deliver the oldest unread bytes in order and advance by exactly the count; adaptive-tree facts as in C15.',
       'NOT decided: byte-exact equality of the decoded HISTORY with the reference decoder (ring contents vs history; match copy content), GetData outer loop, ExtractFileLzh, the encoder lemma. ASSUMED: UpdateCodeCount preserves the structural tree invariant for T = 314 (proved only for T <= 6).')
-claim('C03', 'WaveHeader::Create proved to build the canonical 46-byte header (all fields, cbSize 0, chunkSize + 8 = 46 + D) and ClmHeader::MakeHeader the canonical CLM header; version/unknown-field checks proved; FindChunk proved memory safe and terminating on arbitrary bytes over any K_R stream (64-bit cursor, decreases fileSize - cursor); both headers proved deterministic (two-run); the reader-to-writer copy loop proved to transfer exactly the remaining bytes.',
-      'NOT decided: ReadAllWaveHeaders, PrepareIndex offsets, WriteArchive (copies to end of stream rather than dataLength bytes - suspected defect D10 not yet examined by a check), CompareWaveFormats (proof attempt timed out), ReadHeader/OpenStream/ExtractFile, name rules; XFile/std::sort.')
+claim('C03', 'WaveHeader::Create proved to build the canonical 46-byte header (all fields, cbSize 0, chunkSize + 8 = 46 + D) and ClmHeader::MakeHeader the canonical CLM header; version/unknown-field checks proved; FindChunk proved memory safe and terminating on arbitrary bytes over any K_R stream (64-bit cursor, decreases fileSize - cursor); both headers proved deterministic (two-run); the reader-to-writer copy loop proved to transfer exactly the remaining bytes. FindChunk content: a normal return has just read a header carrying the searched tag and returns its length field; a matching first chunk and a matching second chunk after a non-matching first one (also with its header ending exactly at end of file, data length 0) are found. ReadAllWaveHeaders proved memory safe on arbitrary files (format record and index slot of file i only), stored cbSize 0. Reading side (unit clmr): ReadHeader on arbitrary bytes fails or establishes count == |index| with header + index inside the file; GetSize returns the recorded length; OpenStream returns exactly [dataOffset, dataOffset + dataLength) or refuses; ExtractFile writes the 46-byte header plus exactly dataLength bytes, refuses out-of-range indices before creating a file. CreateArchive pipeline order proved (sort, open, parse, formats agree, names of the sorted list, stored names <= 8 characters, duplicate check on the STORED names, then WriteArchive). Bounded stand-ins: PrepareIndex (n <= 3), WriteArchive layout incl. "the file ends with the last member\'s data" (n <= 2) - the latter found and fixed defect D10.',
+      'NOT decided: CompareWaveFormats (proof attempt timed out; its place in the pipeline is), chunk walks beyond the second chunk, fmt/data field contents end to end, XFile name handling, std::sort itself. ASSUMED: IndexEntry::GetFilename, vector plumbing, FileWriter as the abstract Writer.')
 NOT_DECIDED.update({
  'C04': ['history-level equality with the reference decoder (ring/queue content), GetData, ExtractFileLzh, encoder-side lemma', 'tree invariant preservation for T=314 (assumed)'],
- 'C03': ['ReadAllWaveHeaders, PrepareIndex, WriteArchive (D10 suspected, unexamined), CompareWaveFormats (timeout), reader side, name rules'],
+ 'C03': ['CompareWaveFormats (timeout)', 'FindChunk completeness beyond two chunks', 'PrepareIndex / WriteArchive: bounded in member count', 'XFile name handling, std::sort'],
 })
 
 # ---- U-ARCH (C17, C01, C05)
@@ -341,12 +341,12 @@ volr('GetName', ['C05', 'C17']); volr('GetCompressionCode', ['C05', 'C17', 'C02'
 volr('GetSectionHeader', ['C05', 'C13']); volr('OpenStream', ['C05', 'C13', 'C02'], replace=['VolFile_GetSectionHeader'])
 volr('ExtractFile', ['C05', 'C17']); volr('ReadTag', ['C05', 'C02']); volr('CountValidEntries', ['C05', 'C02'], reach=NOEXC)
 volr('ReadVolHeader', ['C05', 'C02'], replace=['VolFile_ReadTag', 'VolFile_CountValidEntries'], timeout=600, flags=['--object-bits', '12'])
-claim('C05', 'FileReader is proved over the assumed std::ifstream model: a read that does not fit throws and leaves the reader usable at the old position (K_F); on top of K_F, opening ARBITRARY bytes as a VOL either fails or establishes the archive invariant (counted entries have an index record and a name; index storage never overrun), every per-member call refuses out-of-range indices and keeps the invariant on both exits, OpenStream returns exactly the recorded extent and refuses extents outside the file; the WAV chunk walk (FindChunk) is memory safe and terminates on arbitrary bytes; CLM header checks proved.',
-      'ASSUMED: ifstream model; ReadStringTable (vector<string> construction), ExtractFile* bodies, vector resize as abstract contracts. NOT decided: ClmFile::ReadHeader/OpenStream/ExtractFile, ReadAllWaveHeaders, ExtractAllFiles, resource exhaustion.')
+claim('C05', 'FileReader is proved over the assumed std::ifstream model: a read that does not fit throws and leaves the reader usable at the old position (K_F); on top of K_F, opening ARBITRARY bytes as a VOL either fails or establishes the archive invariant (counted entries have an index record and a name; index storage never overrun), every per-member call refuses out-of-range indices and keeps the invariant on both exits, OpenStream returns exactly the recorded extent and refuses extents outside the file; the WAV chunk walk (FindChunk) is memory safe and terminates on arbitrary bytes; CLM header checks proved; the CLM reading side (ReadHeader, GetName, GetSize, OpenStream, ExtractFile) proved over K_F: arbitrary bytes either fail or establish count == |index|, the index read never leaves the index storage, every per-member call refuses out-of-range indices and leaves the archive (including the shared reader position) untouched on both exits, extents outside the file are refused; ReadAllWaveHeaders memory safe on arbitrary files; slice construction and the LZH bit reader (groups shared with C13/C04) refuse or stay in bounds for every input.',
+      'ASSUMED: ifstream model; ReadStringTable (vector<string> construction), VolFile ExtractFile* bodies, vector resize/assignment, IndexEntry::GetFilename as abstract contracts. NOT decided: ExtractAllFiles, LZH decode loop of ExtractFileLzh, resource exhaustion (a CLM header may announce 2^32 index entries).')
 claim('C17', 'GetIndex proved (cvc5, any member count) to throw iff no member matches and otherwise to return the least matching index; Contains proved equivalent to "some member matches", hence Contains(n) <=> GetIndex(n) does not throw, and GetIndex(GetName(i)) == i for duplicate-free archives; VerifyIndexInBounds and every VolFile per-member call refuse out-of-range indices.',
       'PathsAreEqual is an uninterpreted deterministic relation: its case and "./" insensitivity, directory listings, regex/extension matching, archive discovery and ResourceManager precedence are NOT decided (std::filesystem / std::regex / unique_ptr vectors; no extractable repository code).')
 NOT_DECIDED.update({
- 'C05': ['ClmFile reader side, ReadAllWaveHeaders, ReadStringTable content, ExtractFile bodies, resource exhaustion'],
+ 'C05': ['ReadStringTable content, VolFile ExtractFile* bodies, ExtractAllFiles, resource exhaustion'],
  'C17': ['PathsAreEqual case/"./" folding (std::filesystem)', 'ResourceManager::GetResourceStream precedence, listings, regex and extension matching, archive discovery'],
 })
 
@@ -392,20 +392,20 @@ G('clm.PrepareIndex.bounded', ['C20', 'C03'], 'clm', None, harness='h_clm_prepar
   flags=['--unwind', '6', '--unwinding-assertions'], timeout=600, bounded='member count n <= 3 (data lengths fully symbolic)',
   what='bounded stand-in: PrepareIndex vs the CLM layout in 128-bit arithmetic: refuses iff an offset does not fit 32 bits, else offsets equal the description')
 claim('C20', 'Proved: size-prefixed writes (uint8/16/32 and int8/16 prefixes) refuse a container that does not fit the prefix and otherwise write prefix then data; WriteContainerSize refuses sizes above 2^32-1; CreateHeader refuses a tileset count above 32 bits and a non-power-of-two width; WriteFrame refuses a layer list that disagrees with its 7-bit count (all counts, all flag combinations). Bounded stand-ins (labelled bounded, not proof): VolFile::PrepareHeader and ClmFile::PrepareIndex for <= 3 members with fully symbolic 64-bit sizes against the layout in 128-bit arithmetic: refused iff a size or accumulated offset does not fit its field.',
-      'The VOL/CLM accumulated-offset clauses are bounded in the member count (n <= 3), not in the sizes. NOT decided: refusal precedes creation of the destination file (WriteVolume/CreateArchive ordering; FileWriter and std::sort are outside the extractor), CLM name length rule, ArtFile count checks.')
-claim('C07', 'For ARBITRARY input bytes over any K_R stream ReadMapBeginning is proved to either throw or return a map whose width is a power of two and whose tile array has exactly height << log2(width) entries (no over-wide shift, no wrapped product, every short read refused), consuming at least the 46 fixed bytes; MapHeader::WidthInTiles/TileCount proved for every exponent <= 31; ReadVersionTag, ReadTilesetHeader, ReadTileGroup, SkipSaveGameHeader proved safe with their exact consumption or refusal.',
-      'ASSUMED abstract contracts: vector resize, Read<uint32_t>(container), ReadTilesetSources. NOT decided: ReadSavedGameUnits, ReadTileGroups loop, saved game vs map equivalence, resource exhaustion.')
-claim('C06', 'Header layer of the round trip proved: CreateHeader writes every header field from the map (width as its base-2 logarithm, saved flag normalised to 0/1), GetWidthInTilesLog2 / Log2OfPowerOf2 / IsPowerOf2 exact, MapHeader and Map constructors deterministic and as specified, version-tag checks exact, WriteContainerSize byte-exact; reader-side framing facts as in C07.',
-      'NOT decided: the container-level round trip (Write(Read(b)) = normalise(b)), WriteTilesetSources / WriteTileGroups, editing operations other than SetCellType / SetLavaPossible (proved in C16), TrimTilesetSources (lambda).')
+      'The VOL/CLM accumulated-offset clauses are bounded in the member count (n <= 3), not in the sizes. Refusal before creation of the destination: proved for VolFile::CreateArchive / WriteVolume and ClmFile::CreateArchive at the level of the pipeline order (every refusing step precedes the only step that constructs the FileWriter; the steps themselves by use-mode framing contracts, std::sort / vector plumbing assumed); CLM stored names longer than 8 characters are refused before WriteArchive (arbitrary index). NOT decided: ArtFile count checks.')
+claim('C07', 'For ARBITRARY input bytes over any K_R stream ReadMapBeginning is proved to either throw or return a map whose width is a power of two and whose tile array has exactly height << log2(width) entries (no over-wide shift, no wrapped product, every short read refused), consuming at least the 46 fixed bytes; MapHeader::WidthInTiles/TileCount proved for every exponent <= 31; ReadVersionTag, ReadTilesetHeader, ReadTileGroup, SkipSaveGameHeader proved safe with their exact consumption or refusal; ReadSavedGameUnits proved memory safe on arbitrary bytes and to consume exactly the bytes the layout defines (both object tables sized by their own counts, free-unit table iff first != next free slot; wrong unit size and short input refused).',
+      'ASSUMED abstract contracts: vector resize, Read<uint32_t>(container), ReadTilesetSources. NOT decided: ReadTileGroups loop, saved game vs map equivalence, resource exhaustion.')
+claim('C06', 'Header layer of the round trip proved: CreateHeader writes every header field from the map (width as its base-2 logarithm, saved flag normalised to 0/1), GetWidthInTilesLog2 / Log2OfPowerOf2 / IsPowerOf2 exact, MapHeader and Map constructors deterministic and as specified, version-tag checks exact, WriteContainerSize byte-exact; the tile index formula (C16 group); reader-side framing facts as in C07. Bounded stand-in: WriteTilesetSources writes exactly the table the reader consumes (tile count iff the name is not empty) for <= 4 sources.',
+      'NOT decided: the container-level round trip (Write(Read(b)) = normalise(b)), WriteTileGroups, WriteTilesetSources beyond 4 sources, editing operations other than SetCellType / SetLavaPossible (proved in C16), TrimTilesetSources (lambda).')
 claim('C01', 'Proved: the comparator that orders members is a strict weak order whose incomparability is case-insensitive equality (C19 lemmas); adjacent-duplicate detection throws iff two neighbouring names are equal ignoring case; GetIndex/Contains find a member by the least matching index and agree; the reader-to-writer copy transfers exactly the remaining bytes for every chunk size; VOL section headers serialise tag, 31-bit length and padding flag exactly; the VOL reader returns exactly the recorded extents and sizes. Bounded stand-ins: PrepareHeader (n <= 3) and PrepareHeader+WriteHeader+WriteFiles byte-for-byte against an independent encoder (n <= 2, tiny names/payloads).',
-      'The layout clauses are bounded (see evidence.bounded). NOT decided: path spelling (XFile::GetFilename), std::sort, refusal-before-creation ordering, extraction to disk, PathsAreEqual case folding.')
+      'The layout clauses are bounded (see evidence.bounded). Also proved: WriteVolume refuses an output path equal to any input (arbitrary index) before the destination is created; CreateArchive runs sort -> names of the sorted list -> duplicate check on those names -> PrepareHeader -> WriteVolume (pipeline order, steps by framing contracts). NOT decided: path spelling (XFile::GetFilename, ComparePathFilenames composition), std::sort itself, extraction to disk, PathsAreEqual case folding.')
 claim('C02', 'Writer => format: bounded byte-for-byte comparison of the written archive with an independent encoder of the VOL description (n <= 2) and of the header quantities in 128-bit arithmetic (n <= 3); section header bit layout proved. Format => reader: for arbitrary bytes ReadVolHeader establishes the archive invariant, CountValidEntries stops at the first unused slot (0xFFFFFFFF name offset), GetSize/GetCompressionCode return the recorded fields, OpenStream returns the recorded extent or refuses it; ordering facts as in C01/C19.',
       'Bounded in the member count for the writer side. NOT decided: name table content (ReadStringTable is abstract), acceptance by the game.')
 NOT_DECIDED.update({
- 'C20': ['refusal precedes creation of the destination (WriteVolume/CreateArchive)', 'CLM name length > 8, ArtFile animation/frame count checks', 'VOL/CLM offsets: bounded in member count'],
- 'C07': ['ReadSavedGameUnits, ReadTileGroups, saved-game equivalence, resource exhaustion'],
- 'C06': ['container-level round trip and byte stability', 'TrimTilesetSources'],
- 'C01': ['layout clauses bounded in member count', 'path spelling, std::sort, extraction to disk, refusal-before-creation'],
+ 'C20': ['ArtFile animation/frame count checks', 'VOL/CLM offsets: bounded in member count', 'pipeline steps of CreateArchive are bound to abstract framing contracts (std::sort, vector plumbing assumed)'],
+ 'C07': ['ReadTileGroups loop, saved-game equivalence, resource exhaustion'],
+ 'C06': ['container-level round trip and byte stability', 'WriteTileGroups; WriteTilesetSources beyond 4 sources', 'TrimTilesetSources'],
+ 'C01': ['layout clauses bounded in member count', 'path spelling (ComparePathFilenames composition), std::sort itself, extraction to disk'],
  'C02': ['writer side bounded in member count', 'ReadStringTable content', 'acceptance by the game'],
 })
 G('wrt.Read_u16string', ['C12'], 'wrt', 'Reader_Read_u16string', replace=['Reader_Read'] + RD, trusted=[KR_TRUST], what='Read(basic_string<CharT>&) for a 2-byte CharT consumes size*sizeof(CharT)')
